@@ -15,15 +15,29 @@ Oracle, evaluated in EVERY reached state (not only at leaves):
   * live handle: set(filenames()) == mem keys, read() == mem bytes, verify();
   * fresh VPK(path, 'r') ("every state's reopen is checked", non-destructive): set(filenames()) == disk keys,
     each name resolves to the same FileInfo in string / 2-tuple / 3-tuple form, read() == bytes, verify(),
-    verify_all(), len();
+    verify_all();
   * an INDEPENDENT decoder of the VPK v1 directory (struct layout written here, zlib.crc32) run on the raw
     bytes on disk lists the same names, finds each file's bytes at (preload, archive index, offset, length)
     inside the files on disk, the stored CRC equals crc32(model bytes), and it agrees with the library's
-    FileInfo fields.
+    FileInfo fields;
+  * every mutation (add_file, new_file, FileInfo.write, del, write_dirfile, add_folder) attempted on that fresh
+    read-only handle raises and leaves the handle's contents and the files on disk unchanged.
+States whose oracle failed are reported and not expanded.
 
-Besides the BFS lattices, three input sweeps drive the same replay/oracle engine: every representable name
+The search is level-synchronous and parallel (core.par_map over chunks of the frontier), with GLOBAL
+deduplication by canonical form between levels (see bfs() for the form and the same-futures argument).  Because
+the alphabet (6 names x 3 forms x 9 sizes) is far too wide for one deep search, five lattices bound deviations
+instead of depth (LATTICES): wide / deep / sizes / names / full.
+
+Besides the BFS lattices, four input sweeps drive the same replay/oracle engine: every representable name
 over a 4-character alphabet in all add-form x access-form combinations, every subset of the six menu names
-with rotating boundary sizes (tree encoding), and a CRC-32 collision overwrite.
+with rotating boundary sizes (tree encoding), the same subsets with the archive index varying per file inside
+one archive, and a CRC-32 collision overwrite.
+
+Failure signatures (acc.fail sig) are coarse configuration/model facts a known-finding predicate can test:
+where ('dir' | 'single-file'), limit_none, arch_index_none, size_ge_64k (largest file in the model),
+beyond_limit (some file larger than dir_data_limit on a dir archive), same_crc_overwrite, plus exc/op for
+unexpected exceptions.
 """
 from __future__ import annotations
 
@@ -57,7 +71,6 @@ CRC_TWINS = ('plumless', 'buckeroo')
 
 VPK_SIG = 0x55AA1234
 DIR_INDEX = 0x7FFF
-PRELOAD_MAX = 0xFFFF
 
 
 # ---------------------------------------------------------------------------------------------
@@ -348,6 +361,7 @@ class Runner:
         self.acc = acc
         self.workdir = workdir
         self.folder_src = folder_src
+        self.ai_none = False        # the current history passes arch_index=None somewhere
 
     def sig(self, cfg, model: Model, **extra) -> dict:
         kind, limit, ai = cfg
@@ -360,14 +374,15 @@ class Runner:
             beyond = mx > limit
         # coarse and stable: which storage paths the history can have used
         s = {'where': 'dir' if kind == 'dir' else 'single-file', 'limit_none': limit is None,
-             'arch_index_none': ai is None, 'size_ge_64k': mx >= 65536, 'beyond_limit': beyond,
+             'arch_index_none': self.ai_none, 'size_ge_64k': mx >= 65536, 'beyond_limit': beyond,
              'same_crc_overwrite': model.same_crc_overwrite}
         s.update(extra)
         return s
 
     def real_op(self, h, cfg, op):
         k = op[0]
-        ai = cfg[2]
+        # the archive index is a configuration parameter; an optional 6th field of add/write overrides it
+        ai = op[5] if len(op) > 5 else cfg[2]
         if k == 'add':
             h.add_file(form_of(op[1], op[2]), content(op[1], op[4], op[3]), arch_index=ai)
         elif k == 'new':
@@ -392,6 +407,7 @@ class Runner:
         for fn in os.listdir(wd):
             os.remove(os.path.join(wd, fn))
         case = {'cfg': [kind, limit, ai], 'hist': [list(o) for o in hist]}
+        self.ai_none = ai is None or any(len(o) > 5 and o[5] is None for o in hist)
         path = vpk_path(wd, kind)
         model = Model()
         h = None
@@ -782,8 +798,9 @@ def shard(spec) -> core.Acc:
                     canon = 'FAILED:' + core.digest([ci, child])
                 if canon not in children:
                     children[canon] = [ci, child, ok]
-        if items:
-            acc.sample({'lattice': lattice, 'cfg': list(CONFIGS[items[0][0]]), 'history': items[0][1]}, 1)
+        if last and children:
+            ci, child, _ok = children[min(children)]
+            acc.sample({'lattice': lattice, 'cfg': list(CONFIGS[ci]), 'history': [list(o) for o in child]}, 1)
         with open(outfile, 'w') as f:
             if last:
                 json.dump({'canons': sorted(children)}, f)
@@ -911,6 +928,23 @@ def sweep_histories(quick: bool) -> dict:
                               ['flush']]
                     items.append([ci, h])
     out['filesets'] = items
+    # (C') the same subsets on dir archives with the archive index varying per file (None / 0 / 1 in one archive)
+    items = []
+    mixed = [None, 0, 1]
+    for ci, cfg in enumerate(CONFIGS):
+        if cfg[0] != 'dir' or cfg[2] != 0:
+            continue
+        sizes = sizes_for(cfg[1], 'edge')
+        for r in range(1, len(NAMES) + 1):
+            for sub in itertools.combinations(range(len(NAMES)), r):
+                for rot in range(3):
+                    adds = [['add', NAMES[j], FORMS[(j + rot) % 3], sizes[(n + rot) % len(sizes)], 0, mixed[(n + rot) % 3]]
+                            for n, j in enumerate(sub)]
+                    h = [['open', 'w']] + adds + [['flush'], ['reopen', 'a']]
+                    h += [['write', NAMES[sub[-1]], 's', sizes[-1], 1, mixed[(len(sub) + rot) % 3]],
+                          ['write', NAMES[sub[0]], 's', sizes[-2], 1, mixed[(len(sub) + rot + 1) % 3]], ['flush']]
+                    items.append([ci, h])
+    out['mixed_index'] = items
     # (D) overwrite with different data of equal CRC-32
     items = []
     for ci, cfg in enumerate(CONFIGS):
@@ -968,12 +1002,16 @@ def run(ctx: core.Ctx) -> None:
         '{limit+1, 65536}, one = {limit+1}, full = {0,1,limit-1,limit,limit+1,65535,65536,70000,300000}. Sweeps (each history checked after '
         f'every step): all {n_names} representable names of length <= {4 if q else 5} over [a b . /] x add form x access form x '
         '{add, new_file, overwrite, reopen-a + delete}; every non-empty subset of the 6 menu names x size rotation x 24 '
-        'configurations followed by reopen-a + delete/overwrite; overwrite with CRC-32-colliding data. '
+        'configurations followed by reopen-a + delete/overwrite; the same subsets on dir archives with the archive index '
+        'varying per file (None/0/1 within one archive) followed by reopen-a + two overwrites into other indexes; overwrite with CRC-32-colliding data. '
         'Non-trivial = the resulting state has a written directory holding >= 1 file whose bytes were compared after a '
         'fresh open. Each (parent state, operation) pair is enumerated once.')
     ctx.assumptions.append(
         'names are restricted to the representable set: ASCII without blank/backslash, no empty/./.. folder segment, last '
         'segment not ending in "." (the directory tree stores an empty extension as "no extension", so "x." aliases "x")')
+    ctx.assumptions.append(
+        'the open handle is also compared with the model (list/read/verify) in every state; the property text only speaks '
+        'about reopened archives, so those clauses have their own kinds (live_*) - on the repaired tree they never fire')
     ctx.assumptions.append(
         'a VPK object has no close(); "close and reopen" = drop the handle (after write_dirfile() when the history says so) '
         'and construct a new VPK; before the first write_dirfile() after a truncating open no directory exists and nothing '
